@@ -182,6 +182,20 @@ def prove_uf_abstracted(pc, c, timeout_ms):
     return "unsat" if s.check() == z3.unsat else "unknown"
 
 
+def uf_unsat(constraints, timeout_ms):
+    """True if the conjunction is unsatisfiable already with * / % abstracted to uninterpreted functions"""
+    try:
+        exprs, n = uf_abstract([z3.simplify(f) for f in constraints])
+    except z3.Z3Exception:
+        return False
+    if n == 0:
+        return False
+    s = z3.Solver()
+    s.set("timeout", timeout_ms)
+    s.add(*exprs)
+    return s.check() == z3.unsat
+
+
 def _has_arrays(exprs):
     """does any sub-term have array sort?  (memoised DFS over the DAG)"""
     seen = set()
